@@ -251,6 +251,9 @@ func outLast() any                               { return nil }
 //@ ensures [C03 C04] never-nul: r0 != 0
 //@ ensures [C04] stop-is-error: r0 < 0 ==> r0 == -1 && len(l.errors) > old(len(l.errors))
 //@ ensures [C03 C04] code-point: r0 <= 1114111
+//@ ensures [C03 C02] only-values-beyond-the-last-code-point-are-out-of-range: r0 < 0 && callarg[string](l.Error, "msg") == "invalid Unicode escape value" ==> rr > 1114111
+//@ ensures [C03 C02] only-zero-is-unconvertible: r0 < 0 && callarg[string](l.Error, "msg") == `\u0000 cannot be converted to text` ==> rr == 0
+//@ ensures [C03 C02] local-the-value-written-is-the-value-read: r0 >= 0 ==> r0 == rr
 //@ ensures [C04] errors-only-grow: len(l.errors) >= old(len(l.errors))
 //@ ensures [C04] progress: l.srcPos >= old(l.srcPos) && (r0 >= 0 ==> l.srcPos > old(l.srcPos))
 
